@@ -162,6 +162,17 @@ Section O14.
         && (negb (is_project_entry i)
             || doc_ok i o FN_PDOC (p_top (i_src i)) (p_top (i_dst i)) (p_top (ob_dst o)))).
 
+  (* DocumentSyncConflict is justified only by ByKey() without key strategy meeting a document pair (of a job
+     being synchronised, or the project documents) that really has a conflict — not by conflicts of earlier
+     calls or other jobs that happened to use the same ByKey instance *)
+  Definition doc_conflict_justified (i : sinput) (o : sobs) : bool :=
+    negb (exn_opt_eqb (ob_exn o) (Some EDocumentSyncConflict))
+    || (match o_docsync (i_opts i) with DS_bykey None => true | _ => false end
+        && (existsb (fun pr => has_conflict (JObj (read_doc FN_DOC (snd (fst pr)))) (JObj (read_doc FN_DOC (odir (snd pr)))))
+                    (pairs i)
+            || (is_project_entry i
+                && has_conflict (JObj (read_doc FN_PDOC (p_top (i_src i)))) (JObj (read_doc FN_PDOC (p_top (i_dst i))))))).
+
   (* no backup file survives the call *)
   Definition no_backup_in (before after : dir) : bool :=
     forallb (fun e => negb (ends_tilde (fst e)) || negb (is_none (lookup_path (fst e) (Dir before)))) (flat after).
@@ -171,7 +182,7 @@ Section O14.
   Definition holds_C14 (c : scase) : bool :=
     let i := c_in c in
     let o := c_obs c in
-    files_ok i o && docs_ok i o && no_backup_left i o.
+    files_ok i o && docs_ok i o && doc_conflict_justified i o && no_backup_left i o.
 End O14.
 
 (* no open known finding for C14 (truncated ByKey name, un-anchored patterns, DEFAULT_IGNORES are repaired) *)
